@@ -12,4 +12,7 @@ out_d4 = dprops.enumerate_d4(w)
 json.dump({k: sorted(v) for k, v in sorted(out_d4.items())}, open(os.path.join(facts.VERIF, 'rules', 'd4_sites.json'), 'w'), indent=1)
 mcs = dprops.mine_mustcalls(w)
 json.dump(mcs, open(os.path.join(facts.VERIF, 'rules', 'mustcall.json'), 'w'), indent=1)
+lp = dprops.mine_looped(w)
+json.dump(lp, open(os.path.join(facts.VERIF, 'rules', 'looped.json'), 'w'), indent=1)
+print('looped pairs', len(lp))
 print('d4 classes', len(out_d4), 'sites', sum(len(v) for v in out_d4.values()), '; must-call pairs', len(mcs))
